@@ -1,10 +1,10 @@
 package props
 
 import (
-	"github.com/parquet-go/parquet-go/encoding/thrift"
 	"bytes"
 	"errors"
 	"fmt"
+	"github.com/parquet-go/parquet-go/encoding/thrift"
 	"io"
 	"sort"
 	"strings"
@@ -91,6 +91,11 @@ func (C11) Gen(t *tape.Tape, tier string) any {
 			sc.SrcW.IndexSizeLimit = 0
 			sc.DstW.IndexSizeLimit = []int{1, 2, 4}[t.Draw(3)]
 		}
+		if t.Chance(1, 4) {
+			// page bounds skipped for one column by the destination only
+			paths := gen.LeafPaths(sh.Schema())
+			sc.DstW.SkipPageBounds = [][]string{paths[t.Draw(len(paths))]}
+		}
 		if len(sc.DstW.Bloom) > 0 && t.Chance(1, 3) {
 			// the same filters, stored compressed by one side only
 			sc.SrcW.BloomGzip, sc.DstW.BloomGzip = false, true
@@ -161,6 +166,7 @@ type chunkMeta struct {
 	PageTypes string
 	Bloom     bool
 	BloomKind string // compression declared by the bloom filter header
+	Bounds    bool   // some page of the column index carries a non-empty bound
 	ColIndex  bool
 	OffIndex  bool
 }
@@ -473,6 +479,7 @@ func c11Execute(c *core.Ctx, sc *C11Scenario, sh gen.Shape, data, pre gen.Data, 
 	}
 	o := &c11Output{bytes: sink.Bytes(), meta: map[int]map[chunkMeta]bool{}}
 	nonNull := map[[2]int]int{}
+	hasBounds := map[[2]int]bool{}
 	o.copied = parquet.VerifCopyPathCount() - c0
 	o.reenc = parquet.VerifReencodePathCount() - r0
 
@@ -498,6 +505,17 @@ func c11Execute(c *core.Ctx, sc *C11Scenario, sh gen.Shape, data, pre gen.Data, 
 		// every page listed in the offset index starts at its row
 		if v := c11PageStarts(rg, rows, sc.Source); v != nil {
 			return nil, nil, v
+		}
+		for ci := range rg.ColumnChunks() {
+			// raw bytes of the index: an empty bound has no value to decode
+			if k := gi*len(rg.ColumnChunks()) + ci; k < len(f.ColumnIndexes()) {
+				ix := f.ColumnIndexes()[k]
+				for p := range ix.MinValues {
+					if len(ix.MinValues[p]) > 0 || (p < len(ix.MaxValues) && len(ix.MaxValues[p]) > 0) {
+						hasBounds[[2]int{gi, ci}] = true
+					}
+				}
+			}
 		}
 		// bloom filters: no false negative
 		for ci, cc := range rg.ColumnChunks() {
@@ -602,7 +620,7 @@ func c11Execute(c *core.Ctx, sc *C11Scenario, sh gen.Shape, data, pre gen.Data, 
 				}
 			}
 			cm := chunkMeta{Codec: m.Codec.String(), Encodings: setString(encs), PageTypes: setString(ptypes[[2]int{gi, ci}]),
-				Bloom: m.BloomFilterOffset != 0, BloomKind: bloomHeaderKind(o.bytes, m.BloomFilterOffset), ColIndex: col.ColumnIndexOffset != 0, OffIndex: col.OffsetIndexOffset != 0}
+				Bloom: m.BloomFilterOffset != 0, BloomKind: bloomHeaderKind(o.bytes, m.BloomFilterOffset), Bounds: hasBounds[[2]int{gi, ci}], ColIndex: col.ColumnIndexOffset != 0, OffIndex: col.OffsetIndexOffset != 0}
 			if o.meta[ci] == nil {
 				o.meta[ci] = map[chunkMeta]bool{}
 			}
